@@ -194,9 +194,22 @@ def _map_codes(ctx, fname, eid):
 
 
 def _tuple_const(fn, name):
+    """the code whitelist of a visitor method: the tuple bound to `name`, or - when the code does not keep it in a
+    local - the one constant tuple the error code is tested against"""
     for n in ast.walk(fn):
         if isinstance(n, ast.Assign) and path_of(n.targets[0]) == name and isinstance(n.value, (ast.Tuple, ast.List)):
             return [A.const(x) for x in n.value.elts], n
+    cands = []
+    for n in ast.walk(fn):
+        if isinstance(n, ast.Compare) and len(n.ops) == 1 and isinstance(n.ops[0], (ast.In, ast.NotIn)) \
+                and isinstance(n.comparators[0], (ast.Tuple, ast.List)) and n.comparators[0].elts \
+                and all(isinstance(x, ast.Constant) and isinstance(x.value, str) for x in n.comparators[0].elts) \
+                and isinstance(n.left, ast.Name):
+            cands.append(n)
+    texts = {ast.unparse(c.comparators[0]) for c in cands}
+    if len(texts) == 1:
+        c = cands[0]
+        return [A.const(x) for x in c.comparators[0].elts], c
     raise AnalysisError('%s: %s not found' % (fn.name, name))
 
 
